@@ -7,34 +7,27 @@ package main
 //   - the marker operator constants by value, their String() texts
 //   - markerOpsByLength
 //
-// Nothing is found by the name of an unexported identifier, by a file name or by the
-// shape of a const block:
-//   - the environment (both tables) is the VALUE the linked code holds at run time
-//     (hook pypi.VerifEnvironment), whatever way the source builds it;
-//   - the operator type and the by-length table are found by role in the type-checked
-//     package: the one package-level variable that is a slice of a package-local integer
-//     type with constants;
-//   - the constants and the elements of the table are evaluated by go/types (iota,
-//     explicit values, named or converted constants alike);
-//   - the String() texts are read from the String method of that type, in whichever
-//     of the usual forms it is written (stringer's name/index tables, a switch over
-//     the constants, a keyed table).
+// Everything that is a VALUE is read from the linked code at run time (the harness binary
+// is rebuilt from the tree under test with the build tag `verif`), whatever way the
+// source builds it (literal, init(), helper, generated tables, hand-written switch):
+//   - the environment (both tables): hook pypi.VerifEnvironment;
+//   - the by-length operator table and the String() text of every operator value: hook
+//     pypi.VerifMarkerOps(n) (/repo fdda9ea).
+// The hooks (util/resolve/pypi/verif_on.go, add-only, build tag verif) are part of the
+// trusted base: they copy the package's own variables and call its own String method.
+// The only thing read from the source is HOW MANY operators there are: the operator type
+// is found by role in the type-checked package (the package-local integer type with
+// constants of which some package-level variable is a slice or array), its constants are
+// evaluated by go/types (iota, explicit values, named or converted constants alike) and
+// must be the values 0..n-1. No identifier name, file name, literal shape or statement
+// shape of /repo is relied on.
 // The labels in `opNames` (the wire names between harness and driver, and the names the
 // model's `opLess`… are checked against) are the PEP 508 operator each value prints as,
 // not the identifier /repo happens to give the constant.
-//
-// NOT covered (would need a hook, see below): a by-length table that is not a literal of
-// constants (built in init() or by a helper), a String method of another form.
-// Hook that would make both a run-time reading, to be added to
-// /repo/util/resolve/pypi/verif_on.go:
-//
-//	// VerifMarkerOps returns markerOpsByLength as integers and markerOp(v).String() for v = 0..n-1.
-//	func VerifMarkerOps(n int) (byLength []int, texts []string)
 
 import (
 	rpypi "deps.dev/util/resolve/pypi"
 	"fmt"
-	"go/ast"
 	"go/constant"
 	"go/types"
 	"path/filepath"
@@ -90,189 +83,6 @@ func constsOf(p *packages.Package, t *types.Named) map[int64][]string {
 	return out
 }
 
-// varInit returns the initialiser expression of a package-level variable.
-func varInit(p *packages.Package, o types.Object) ast.Expr {
-	for _, f := range p.Syntax {
-		for _, d := range f.Decls {
-			gd, ok := d.(*ast.GenDecl)
-			if !ok {
-				continue
-			}
-			for _, s := range gd.Specs {
-				vs, ok := s.(*ast.ValueSpec)
-				if !ok {
-					continue
-				}
-				for i, n := range vs.Names {
-					if p.TypesInfo.Defs[n] == o && i < len(vs.Values) {
-						return vs.Values[i]
-					}
-				}
-			}
-		}
-	}
-	return nil
-}
-
-// intElems evaluates a composite literal of constant integers (positional or with
-// constant index keys, as long as every position is given).
-func intElems(p *packages.Package, e ast.Expr) ([]int, bool) {
-	cl, ok := ast.Unparen(e).(*ast.CompositeLit)
-	if !ok {
-		return nil, false
-	}
-	at := map[int]int{}
-	next := 0
-	for _, el := range cl.Elts {
-		val := el
-		if kv, ok := el.(*ast.KeyValueExpr); ok {
-			k, ok := fw.EvalInt(p, kv.Key)
-			if !ok {
-				return nil, false
-			}
-			next, val = int(k), kv.Value
-		}
-		v, ok := fw.EvalInt(p, val)
-		if !ok {
-			return nil, false
-		}
-		if _, dup := at[next]; dup {
-			return nil, false
-		}
-		at[next] = int(v)
-		next++
-	}
-	out := make([]int, len(at))
-	for i := range out {
-		v, ok := at[i]
-		if !ok {
-			return nil, false
-		}
-		out[i] = v
-	}
-	return out, true
-}
-
-// opTexts reads T.String() for the values 0..n-1.
-func opTexts(p *packages.Package, t *types.Named, n int) ([]string, error) {
-	var fd *ast.FuncDecl
-	for _, f := range p.Syntax {
-		for _, d := range f.Decls {
-			x, ok := d.(*ast.FuncDecl)
-			if !ok || x.Recv == nil || x.Name.Name != "String" || x.Body == nil || len(x.Recv.List) != 1 {
-				continue
-			}
-			if tv, ok := p.TypesInfo.Types[x.Recv.List[0].Type]; ok && types.Identical(tv.Type, t) {
-				fd = x
-			}
-		}
-	}
-	if fd == nil {
-		return nil, fmt.Errorf("pypi: type %s has no String method", t.Obj().Name())
-	}
-	texts := map[int]string{}
-	deflt, hasDeflt := "", false
-	var tableErr error
-	ast.Inspect(fd.Body, func(nd ast.Node) bool {
-		switch x := nd.(type) {
-		case *ast.SliceExpr:
-			// stringer: NAME[INDEX[i]:INDEX[i+1]] with a constant NAME and a table INDEX
-			name, ok := fw.EvalStr(p, x.X)
-			lo, ok2 := ast.Unparen(x.Low).(*ast.IndexExpr)
-			if !ok || !ok2 {
-				return true
-			}
-			id, ok := ast.Unparen(lo.X).(*ast.Ident)
-			if !ok {
-				return true
-			}
-			offs, ok := intElems(p, varInit(p, p.TypesInfo.Uses[id]))
-			if !ok {
-				return true
-			}
-			if len(offs) != n+1 {
-				tableErr = fmt.Errorf("the String tables of %s are stale: %d offsets for %d constants", t.Obj().Name(), len(offs), n)
-				return true
-			}
-			for i := 0; i+1 < len(offs); i++ {
-				if offs[i] < 0 || offs[i] > offs[i+1] || offs[i+1] > len(name) {
-					tableErr = fmt.Errorf("the String index table of %s is out of range", t.Obj().Name())
-					return true
-				}
-				texts[i] = name[offs[i]:offs[i+1]]
-			}
-		case *ast.CaseClause:
-			// switch i { case A, B: return "text" }
-			if len(x.Body) != 1 {
-				return true
-			}
-			rs, ok := x.Body[0].(*ast.ReturnStmt)
-			if !ok || len(rs.Results) != 1 {
-				return true
-			}
-			s, ok := fw.EvalStr(p, rs.Results[0])
-			if !ok {
-				return true
-			}
-			if x.List == nil {
-				deflt, hasDeflt = s, true
-			}
-			for _, e := range x.List {
-				if tv, ok := p.TypesInfo.Types[e]; ok && tv.Value != nil && types.Identical(tv.Type, t) {
-					if v, ok := constant.Int64Val(constant.ToInt(tv.Value)); ok {
-						texts[int(v)] = s
-					}
-				}
-			}
-		case *ast.IndexExpr:
-			// TABLE[i] with TABLE a package-level literal of constant strings (keyed or positional)
-			id, ok := ast.Unparen(x.X).(*ast.Ident)
-			if !ok {
-				return true
-			}
-			o, ok := p.TypesInfo.Uses[id].(*types.Var)
-			if !ok || o.Parent() != p.Types.Scope() {
-				return true
-			}
-			cl, ok := ast.Unparen(varInit(p, o)).(*ast.CompositeLit)
-			if !ok {
-				return true
-			}
-			next := 0
-			for _, el := range cl.Elts {
-				val := el
-				if kv, ok := el.(*ast.KeyValueExpr); ok {
-					k, ok := fw.EvalInt(p, kv.Key)
-					if !ok {
-						return true
-					}
-					next, val = int(k), kv.Value
-				}
-				if s, ok := fw.EvalStr(p, val); ok {
-					texts[next] = s
-				}
-				next++
-			}
-		}
-		return true
-	})
-	if tableErr != nil {
-		return nil, tableErr
-	}
-	out := make([]string, n)
-	for v := 0; v < n; v++ {
-		s, ok := texts[v]
-		if !ok && hasDeflt {
-			s, ok = deflt, true
-		}
-		if !ok {
-			return nil, fmt.Errorf("pypi: cannot read %s(%d).String() from the source (not stringer tables, a switch over constants or a keyed table); a run-time hook is needed", t.Obj().Name(), v)
-		}
-		out[v] = s
-	}
-	return out, nil
-}
-
 func extractPypiFacts(repo string) (*pypiFacts, error) {
 	out := &pypiFacts{Markers: map[string]string{}}
 
@@ -295,10 +105,9 @@ func extractPypiFacts(repo string) (*pypiFacts, error) {
 	if err != nil {
 		return nil, err
 	}
-	// the operator type and the by-length table: the package-level []T variable with T a
-	// package-local integer type that has constants
+	// the operator type: the package-local integer type with constants of which some
+	// package-level variable is a slice or array (the by-length table, however it is filled)
 	var opType *types.Named
-	var table *types.Var
 	for _, n := range p.Types.Scope().Names() {
 		v, ok := p.Types.Scope().Lookup(n).(*types.Var)
 		if !ok {
@@ -314,13 +123,13 @@ func extractPypiFacts(repo string) (*pypiFacts, error) {
 			continue
 		}
 		if nt := localIntType(p, elem); nt != nil && len(constsOf(p, nt)) >= 2 {
-			if table != nil {
-				return nil, fmt.Errorf("pypi: two candidate operator tables (%s, %s)", table.Name(), v.Name())
+			if opType != nil && !types.Identical(opType, nt) {
+				return nil, fmt.Errorf("pypi: two candidate operator types (%s, %s)", opType.Obj().Name(), nt.Obj().Name())
 			}
-			opType, table = nt, v
+			opType = nt
 		}
 	}
-	if table == nil {
+	if opType == nil {
 		return nil, fmt.Errorf("pypi: no package-level table of operator constants found")
 	}
 	byVal := constsOf(p, opType)
@@ -330,8 +139,17 @@ func extractPypiFacts(repo string) (*pypiFacts, error) {
 			return nil, fmt.Errorf("pypi: the constants of %s are not the values 0..%d", opType.Obj().Name(), n-1)
 		}
 	}
-	if out.OpStrings, err = opTexts(p, opType, n); err != nil {
-		return nil, err
+	// the table and the texts, as the linked code holds / computes them
+	byLength, texts := rpypi.VerifMarkerOps(n)
+	if len(texts) != n {
+		return nil, fmt.Errorf("pypi.VerifMarkerOps(%d) returned %d texts", n, len(texts))
+	}
+	out.OpStrings = texts
+	for _, v := range byLength {
+		if v < 0 || v >= n {
+			return nil, fmt.Errorf("pypi: the by-length table holds %d, not a declared operator", v)
+		}
+		out.ByLength = append(out.ByLength, v)
 	}
 	// labels by role
 	used := map[string]bool{}
@@ -345,17 +163,6 @@ func extractPypiFacts(repo string) (*pypiFacts, error) {
 		}
 		used[label] = true
 		out.OpNames = append(out.OpNames, label)
-	}
-	// the by-length table
-	elems, ok := intElems(p, varInit(p, table))
-	if !ok {
-		return nil, fmt.Errorf("pypi: %s is not a literal of constants; reading it needs the hook pypi.VerifMarkerOps (see gen.go)", table.Name())
-	}
-	for _, v := range elems {
-		if v < 0 || v >= n {
-			return nil, fmt.Errorf("pypi: %s holds %d, not a declared operator", table.Name(), v)
-		}
-		out.ByLength = append(out.ByLength, v)
 	}
 	return out, nil
 }
